@@ -58,12 +58,14 @@ def guards_walk(node, guards, out, want):
         out.append((node, list(guards)))
     if k == "if":
         ct = expr_text(node["cond"])
+        guards_walk(node["cond"], guards, out, want)
         guards_walk(node["then"], guards + [(ct, True)], out, want)
         if "else" in node:
             guards_walk(node["else"], guards + [(ct, False)], out, want)
         return
     if k == "match":
         et = expr_text(node["e"])
+        guards_walk(node["e"], guards, out, want)
         for arm in node["arms"]:
             guards_walk(arm["body"], guards + [("%s is %s" % (et, pat_text(arm["pat"])), True)], out, want)
         return
